@@ -2,6 +2,7 @@ package main
 
 import (
 	"fmt"
+	"regexp"
 	"sort"
 	"strings"
 
@@ -13,6 +14,8 @@ import (
 	"github.com/hashicorp/hcl/v2/hclsyntax"
 	"github.com/zclconf/go-cty/cty"
 )
+
+var hexAddr = regexp.MustCompile(`0x[0-9a-fA-F]+`)
 
 // Go structs for the reflection-driven decoder.
 type gInner struct {
@@ -179,7 +182,8 @@ func dumpContent(c *hcl.BodyContent) string {
 func (w *World) execOp(t int, op OpM) (out func() string) {
 	defer func() {
 		if r := recover(); r != nil {
-			out = func() string { return fmt.Sprintf("PANIC: %v", r) }
+			// addresses in a panic message differ from run to run by nature
+			out = func() string { return "PANIC: " + hexAddr.ReplaceAllString(fmt.Sprintf("%v", r), "0x?") }
 		}
 	}()
 	ctx := w.taskCtx[t]
